@@ -101,6 +101,21 @@ def check(run):
                 if not np.array_equal(default_ws, snap_d, equal_nan=True) or any(not np.array_equal(a, b, equal_nan=True) for a, b in zip(tables, snap_t)):
                     run.violation("private-call-modifies-shared-state", f"Wigner.{name}[workspace=]", {"method": name}, "default workspace and tables unchanged", "changed")
                 # the same call with the default workspace must agree (reference for the value)
+        # 1b. correspondence: observed footprints (monitor) vs the Lean model's wiring `Model.Sched.callSteps`
+        model_lines = [f"sched {name} {priv}" for name in methods for priv in (1, 0)]
+        out = run.driver(model_lines)
+        if out is not None:
+            for line, o in zip(model_lines, out):
+                _, name, priv = line.split()
+                ws = w.new_workspace() if priv == "1" else None
+                bufs = [("default-workspace", default_ws)] + ([("private-workspace", ws)] if ws is not None else []) + [("table", t) for t in tables]
+                call = mk(0)[name](ws)
+                r, n, log = sched.count_steps(call, bufs)
+                obs = ";".join(k + ":" + ",".join(sorted(set(c for c in cls if c != "other"))) for (_, k, cls) in log)
+                mod = ";".join(part for part in o.split(";") if not part.startswith("matmul"))
+                run.corr_case("footprints-vs-model-wiring", line, name, {"op": line, "footprint": obs})
+                if r[0] == "ok" and obs != mod:
+                    run.corr_break("corr:footprints", {"op": line, "model": mod, "impl": obs})
         # 2. interleavings of two concurrent calls
         cap = 40 if quick else 300
         nsched = 0
